@@ -407,18 +407,78 @@ func runC02(c *core.Ctx) core.Meta {
 		}
 	}
 	st3.Sample("FLAT opcodes: emu %s cdna3 %s timing accepts %s", setStr(eF), setStr(cF), setStr(tF))
-	// transforming loads
-	wbCases := map[int64]bool{}
+	// transforming (sub-dword) loads: how many memory bytes reach the register, and how they are extended
+	type subDword struct {
+		bytes  int
+		signed bool
+	}
+	narrowConv := func(in ssa.Instruction) (int, bool) {
+		cv, ok := in.(*ssa.Convert)
+		if !ok {
+			return 0, false
+		}
+		if bt, ok := cv.Type().Underlying().(*types.Basic); ok {
+			switch bt.Kind() {
+			case types.Int8:
+				return 1, true
+			case types.Int16:
+				return 2, true
+			}
+		}
+		return 0, false
+	}
+	wb := map[int64]subDword{}
 	if fn := c.SSAFunc(cuPkg, "ComputeUnit.handleVectorDataLoadReturn"); fn != nil {
+		lp := core.NewLocalProv(c)
 		for _, b := range fn.Blocks {
 			for _, in := range b.Instrs {
-				if bo, ok := in.(*ssa.BinOp); ok && bo.Op == token.EQL {
-					if f := core.LoadedField(bo.X); f != nil && f.Name() == "Opcode" {
-						if k, isC := core.ConstInt(bo.Y); isC {
-							wbCases[k] = true
+				bo, ok := in.(*ssa.BinOp)
+				if !ok || bo.Op != token.EQL {
+					continue
+				}
+				f := core.LoadedField(bo.X)
+				k, isC := core.ConstInt(bo.Y)
+				if f == nil || f.Name() != "Opcode" || !isC {
+					continue
+				}
+				var then *ssa.BasicBlock
+				for _, ref := range *bo.Referrers() {
+					if iff, ok := ref.(*ssa.If); ok {
+						then = iff.Block().Succs[0]
+					}
+				}
+				if then == nil {
+					continue
+				}
+				sd := subDword{}
+				idx := map[string]bool{}
+				for _, tb := range fn.Blocks {
+					if !then.Dominates(tb) {
+						continue
+					}
+					for _, ti := range tb.Instrs {
+						if n, ok := narrowConv(ti); ok {
+							sd.signed, sd.bytes = true, n
+						}
+						if ia, ok := ti.(*ssa.IndexAddr); ok {
+							if df := core.LoadedField(ia.X); df != nil && df.Name() == "Data" {
+								idx[lp.Of(ia.Index)] = true
+							}
+						}
+						if cf := core.CalleeFunc(ti); cf != nil && cf.Pkg() != nil && cf.Pkg().Path() == "encoding/binary" {
+							switch cf.Name() {
+							case "Uint16":
+								idx["le16.0"], idx["le16.1"] = true, true
+							case "Uint32":
+								idx["le32.0"], idx["le32.1"], idx["le32.2"], idx["le32.3"] = true, true, true, true
+							}
 						}
 					}
 				}
+				if !sd.signed {
+					sd.bytes = len(idx)
+				}
+				wb[k] = sd
 			}
 		}
 	} else {
@@ -439,6 +499,8 @@ func runC02(c *core.Ctx) core.Meta {
 				// does the handler modify the bytes read from memory before writing them to the register?
 				transforms := false
 				isLoad := false
+				sd := subDword{bytes: 4}
+				zeroed := map[int64]bool{}
 				for _, b := range fn.Blocks {
 					for _, in := range b.Instrs {
 						if name, cc := stateMethod(in); name == "WriteOperandBytes" || name == "WriteOperand" {
@@ -449,10 +511,18 @@ func runC02(c *core.Ctx) core.Meta {
 								transforms = true
 							}
 						}
+						if n, ok := narrowConv(in); ok {
+							sd.signed, sd.bytes = true, n
+						}
 						if s, ok := in.(*ssa.Store); ok {
 							if ia, ok := s.Addr.(*ssa.IndexAddr); ok {
 								if call, ok := ia.X.(*ssa.Call); ok && call.Call.IsInvoke() && call.Call.Method.Name() == "Read" {
 									transforms = true
+								}
+								if z, isC := core.ConstInt(s.Val); isC && z == 0 {
+									if k, isK := core.ConstInt(ia.Index); isK {
+										zeroed[k] = true
+									}
 								}
 							}
 						}
@@ -461,13 +531,31 @@ func runC02(c *core.Ctx) core.Meta {
 				if !isLoad || !transforms {
 					continue
 				}
+				if !sd.signed {
+					sd.bytes = 4 - len(zeroed)
+					for k := range zeroed {
+						if k < int64(sd.bytes) || k > 3 {
+							sd.bytes = -1 // zeroed bytes are not the upper ones: not a plain zero-extension
+						}
+					}
+				}
 				for _, op := range oc.values {
 					st3.Instances++
-					ok := wbCases[op]
+					tsd, ok := wb[op]
 					st3.Ob(ok)
-					st3.Sample("%s.%s (FLAT %d) transforms the loaded bytes; timing write-back has a case: %v", alu.typ, cal, op, ok)
+					st3.Sample("%s.%s (FLAT %d) keeps %d byte(s), sign-extended: %v; timing write-back: %+v (case present: %v)", alu.typ, cal, op, sd.bytes, sd.signed, tsd, ok)
 					if !ok {
 						c.Report(core.Finding{Rule: "R02.3", Pkg: cuPkg, Func: "ComputeUnit.handleVectorDataLoadReturn", Detail: fmt.Sprintf("flat-writeback-missing:%d", op), Msg: fmt.Sprintf("FLAT opcode %d (%s.%s) transforms the loaded bytes in emulation (sub-dword load) but the timing write-back has no case for it and copies the raw dword: the register differs between the modes", op, alu.typ, cal)})
+						continue
+					}
+					if sd.bytes < 0 || sd.bytes == 4 {
+						continue // a transformation this summary does not model; presence of the case is all that is decided
+					}
+					st3.Instances++
+					okW := tsd == sd
+					st3.Ob(okW)
+					if !okW {
+						c.Report(core.Finding{Rule: "R02.3", Pkg: cuPkg, Func: "ComputeUnit.handleVectorDataLoadReturn", Detail: fmt.Sprintf("flat-writeback-width:%d", op), Msg: fmt.Sprintf("FLAT opcode %d: emulation (%s.%s) puts %d memory byte(s) into the register (sign-extended: %v), the timing write-back %d (sign-extended: %v): the register differs between the modes for values that need the dropped bytes", op, alu.typ, cal, sd.bytes, sd.signed, tsd.bytes, tsd.signed)})
 					}
 				}
 			}
